@@ -571,7 +571,21 @@ def r81_r83(ctx, res):
             from ..astutil import identity_fast_path_returns
             fast_ = identity_fast_path_returns(m.node, m.params[0], m.params[1]) if len(m.params) >= 2 else set()
             rets = [r for r in walk_local(m.node) if isinstance(r, ast.Return) and id(r) in sm.reached and id(r) not in fast_]
-            ok = bool(rets) and all(isinstance(r.value, ast.Constant) and r.value.value is False for r in rets) and not sm.raises
+            def false_here(v_):
+                """the returned expression is False for this foreign operand: the constant, or `isinstance(other, C) and ...`
+                with C one of the package's own classes (the conjunction stops at the first false operand)"""
+                if isinstance(v_, ast.Constant) and v_.value is False:
+                    return True
+                if isinstance(v_, ast.BoolOp) and isinstance(v_.op, ast.And) and v_.values:
+                    t0 = v_.values[0]
+                    if isinstance(t0, ast.Call) and isinstance(t0.func, ast.Name) and t0.func.id == "isinstance" and len(t0.args) == 2 \
+                            and isinstance(t0.args[0], ast.Name) and len(m.params) >= 2 and t0.args[0].id == m.params[1]:
+                        names_ = [x.id for x in ([t0.args[1]] if isinstance(t0.args[1], ast.Name) else
+                                                 (t0.args[1].elts if isinstance(t0.args[1], ast.Tuple) else [])) if isinstance(x, ast.Name)]
+                        foreign_cls = "Vector" if fname_ == "a Vector" else None
+                        return bool(names_) and all(repo.has_cls(n_) for n_ in names_) and foreign_cls not in names_
+                return False
+            ok = bool(rets) and all(false_here(r.value) for r in rets) and not sm.raises
             res.ob("R8.2", m.where(), "%s.__eq__(%s)" % (cname, fname_), ok,
                    "returns False" if ok else "reaches %s" % [txt(r)[:40] for r in rets])
             if not ok:
@@ -588,7 +602,14 @@ def r81_r83(ctx, res):
         fast = identity_fast_path_returns(m.node, a, b)  # `if other is self: return True` does not change the relation
         rets = [r for r in rets if id(r) not in fast]
         want = {"hash(%s) == hash(%s)" % (a, b), "hash(%s) == hash(%s)" % (b, a)}
-        ok = len(rets) == 1 and txt(rets[0].value) in want
+
+        def core_(v_):
+            # `isinstance(other, C) and hash(other) == hash(self)`: for two objects of the class the relation is the hash equality
+            if isinstance(v_, ast.BoolOp) and isinstance(v_.op, ast.And) and len(v_.values) == 2 and isinstance(v_.values[0], ast.Call) \
+                    and isinstance(v_.values[0].func, ast.Name) and v_.values[0].func.id == "isinstance":
+                return v_.values[1]
+            return v_
+        ok = len(rets) == 1 and txt(core_(rets[0].value)) in want
         res.ob("R8.3", m.where(), "%s.__eq__ is hash equality" % cname, ok, "returns `%s`" % (txt(rets[0].value) if rets else "-"))
         if not ok:
             res.violation("R8.3", m, m.node, "%s.__eq__ is documented as equality of the order-free hashes; it returns `%s`, so "
